@@ -12,6 +12,7 @@ from checklib import *
 # ---------------------------------------------------------------------------------------------
 # property table.  kind t1: traced units + reflective theorems + correspondence.
 PROPS = {
+    'C01': dict(kind='t1', units='C01', corr_quick=100, corr_thorough=5000),
     'C02': dict(kind='t1', units='C02', corr_quick=60, corr_thorough=4000),
     'C04': dict(kind='t1', units='C04', corr_quick=200, corr_thorough=10000),
     'C08': dict(kind='t1', units='C08', corr_quick=200, corr_thorough=10000),
@@ -32,7 +33,7 @@ def prop_modules(prop):
 
 
 # hand-model properties integrated so far (checks/<cxx>.py, lean/Drv<Cxx>.lean)
-H_PROPS = ['C07']
+H_PROPS = ['C05', 'C07']
 
 
 def parse_corr(out):
